@@ -36,6 +36,7 @@ def check(ctx, report):
     key_material(ctx, report)
     rsa_exponent_length(ctx, report)
     txt_chunks(ctx, report)
+    complete_consumption(ctx, report)
     # RRSIG inception / expiration (32 bit seconds) and the DNSKEY flag word go through the shared primitives; RSA exponent and
     # modulus through the fixed length integer primitives (tabulations shared with C11.R4/R5/R6)
     from .c11 import fixed_mpint, flags_and_timestamps
@@ -352,3 +353,34 @@ def txt_chunks(ctx, report, rule='C08.R7'):
                 return
     except (Unsupported, Raised) as e:
         report.add(rule, f.construct + '@tabulation', 'DnsRecordTxt.compose left the subset the tabulation understands: %s' % e)
+
+
+# ---- R10: a parser whose consumed length is not reported has to have consumed everything ---------------------------------
+
+def complete_consumption(ctx, report, rule='C08.R10', scope=('cryptoparser/dnsrec/record.py',)):
+    """A function that builds a parser over bytes it was handed and returns an object without that parser's parsed_length
+    gives its caller no way to notice unread bytes: it has to test ``<parser>.unparsed_length`` itself (and raise), otherwise
+    bytes after a fixed size key are dropped silently and the record is composed back shorter than it was."""
+    report.rule(rule, 'a parser whose consumed length is not handed to the caller checks that nothing is left unread')
+    for f in ctx.model.functions():
+        if f.module.external or not f.module.relpath.startswith(scope) or not f.name.lstrip('_').startswith('parse'):
+            continue
+        made = {}
+        for n in ast.walk(f.node):
+            if isinstance(n, ast.Assign) and len(n.targets) == 1 and isinstance(n.targets[0], ast.Name) and isinstance(n.value, ast.Call) and \
+                    ast.unparse(n.value.func) in ('ParserBinary', 'ParserText'):
+                made[n.targets[0].id] = n
+        for name in made:
+            report.count(rule)
+            report.touch(f)
+            src = ast.unparse(f.node)
+            reported = any(isinstance(r, ast.Return) and r.value is not None and ('%s.parsed_length' % name) in ast.unparse(r.value) for r in ast.walk(f.node))
+            # a parser handed on to helpers that return nothing either is still this function's responsibility
+            checked = any(isinstance(i, ast.If) and ('%s.unparsed_length' % name) in ast.unparse(i.test) and any(isinstance(x, ast.Raise) for x in ast.walk(i))
+                          for i in ast.walk(f.node))
+            reads_rest = ('%s.unparsed_length)' % name) in src or ('%s.unparsed)' % name) in src    # a final field that takes the rest
+            if not reported and not checked and not reads_rest:
+                report.add(rule, '%s@unread[%s]' % (f.construct, name),
+                           'the parser %s is created here and neither its parsed_length is returned nor its unparsed_length tested: bytes the fields do not '
+                           'need are dropped without a trace' % name)
+    report.floor(rule, 6, 'parsers created by the parse functions of the DNS record module')
